@@ -304,7 +304,7 @@ Fixpoint s_char_parts (ps : list char_part) (cs : list N) (o : nat) : sres value
     end
   | CPIdent n :: r =>
     match sr n cs o with
-    | SOk v cs' o' _ => SOk v cs' o' []
+    | SOk v cs' o' l => SOk v cs' o' l
     | SFail _ => s_char_parts r cs o
     | SStuck => SStuck
     | SFuel => SFuel
